@@ -12,7 +12,7 @@
 // the semaphore count is back to 0), and every later cycle must give exactly the guarantees of the first: its function runs exactly
 // once more (and the earlier ones not again), join() returns only after it completed with its effects visible, finished() is true
 // afterwards. What finished() says between a later start() and the end of that run is NOT demanded (the statement says "true from
-// then on", and the unchanged library keeps the flag set): it is only counted (w.reuse_finished_still_set_during_later_run).
+// then on", and the unchanged library keeps the flag set): it is only counted (reuse_finished_still_set_during_later_run, not a witness: a library that resets the flag in start() shows 0).
 #include <asl/Thread.h>
 #include <asl/Mutex.h>
 #include <asl/Array.h>
@@ -25,9 +25,10 @@ using vf::fmt;
 extern "C" void* __asan_get_current_fake_stack(void) __attribute__((weak));
 
 static int C_EXEC, C_POINTS, C_JOBS, W_PREEMPT, C_STATES, W_WORKER_FIRST, W_TIMEOUT, W_EARLY, W_SEM_TO, W_SEM_BOTH_TO, W_SEM_ACQ, W_COND_TO, W_COND_SIG,
-	C_EXPECT_PRE, C_WITH_PRE, C_SKIPPED, W_UAR, W_CREATOR_FIRST, W_TRY_FAIL, W_TRY_OK, W_YIELD_FORCED, W_DEFAULT_NTH, W_COPY_RUNNING, W_ALL_BEHIND, W_READY_POINT = -1,
+	C_EXPECT_PRE, C_WITH_PRE, C_NO_OPP, C_SKIPPED, W_UAR, W_CREATOR_FIRST, W_TRY_FAIL, W_TRY_OK, W_YIELD_FORCED, W_DEFAULT_NTH, W_COPY_RUNNING, W_ALL_BEHIND, W_READY_POINT = -1,
 	W_REUSE_CYCLES, W_REUSE_WAIT, W_REUSE_STALE, W_REUSE_GROUP, W_REUSE_GROUP_GROW, W_PFOR_TWICE, W_INVOKE_TWICE, W_SEM_ROUND2, W_COND_ROUND2, W_SEM_TO_THEN_ACQ, W_COND_TO_THEN_SIG, W_FINISH_HOOK, W_FUNCTOR_DTOR;
 static std::string g_case;
+static bool g_opportunity; // some execution of the current scenario had a point at which a preemption was possible
 static void onFatal(const char* what, const std::string& schedule) {
 	std::string w = what; for (size_t i = 0; i < w.size(); i++) w[i] = (char)tolower(w[i]);
 	if (w == "diverged") { fprintf(stderr, "HARNESS ERROR: schedule replay diverged (%s | %s)\n", g_case.c_str(), schedule.c_str()); _exit(2); }
@@ -47,7 +48,7 @@ struct Functor { int k; void operator()() const { if (g_body == 1 || g_body == 3
 // what a creator typically does next: its stack below the current frame is reused
 static __attribute__((noinline, no_sanitize_address)) void clobberStack() { volatile char buf[2048]; for (int i = 0; i < 2048; i++) buf[i] = 0x5a; }
 
-struct Scenario { std::string name; std::function<std::string()> body; int bound; bool threads; std::string sig; Scenario() : bound(-1), threads(true), sig("thread_contract") {} }; // body returns "" when every assertion holds
+struct Scenario { std::string name; std::function<std::string()> body; int bound; std::string sig; Scenario() : bound(-1), sig("thread_contract") {} }; // body returns "" when every assertion holds
 
 static std::string chk(bool c, const char* what) { return c ? "" : std::string(what) + "; "; }
 static std::string ranOnce(int i, const char* who) { return g_runs[i] == 1 ? "" : fmt("%s had run %d time(s) when join() returned, expected exactly once; ", who, (int)g_runs[i]); }
@@ -60,7 +61,10 @@ static bool semTimed(Semaphore& s, double timeout, std::string& bad) {
 	bool expired = vsched::vnow() - t0 >= timeout - 1e-3;
 	if (!r) g_timeouts++;
 	vf::add(r ? W_SEM_ACQ : W_SEM_TO);
-	if (r == expired) bad += fmt("Semaphore::wait(%g) returned %s although the wait %s; ", timeout, r ? "true (acquired)" : "false (timed out)", expired ? "ran into its timeout" : "was ended by a post before its timeout");
+	// only this direction is a lost post (or a timeout reported before the time was up). The other one, true although the deadline was reached, is not
+	// demanded: "return true if it has signaled" allows an implementation to pick up a post that arrives while the wait is expiring (the sums below still
+	// account for every permit, and a wait that reports a permit nobody posted is caught there)
+	if (!r && !expired) bad += fmt("Semaphore::wait(%g) returned false (timed out) although the wait was ended by a post before its timeout; ", timeout);
 	return r;
 }
 // Condition::wait(timeout): true = timed out. A wait that was ended by signal() must not be reported as a timeout (a lost signal for the caller).
@@ -97,10 +101,11 @@ static std::vector<Scenario> scenarios(bool T) {
 		{ Scenario s; s.name = fmt("start_static_ret.body%d", b); s.body = [b]() { g_body = b; Thread t; Thread u = Thread::start([]() { bodyFn(0); }, &t); clobberStack(); u.join(); return ranOnce(0, "the function given to Thread::start(f, &t)") + visible() + chk(t.finished() || u.finished(), "neither t nor the returned Thread reports finished() after join()"); }; v.push_back(s); }
 		{ Scenario s; s.name = fmt("start_static_obj.body%d", b); s.body = [b]() { g_body = b; Thread t; Thread::start([]() { bodyFn(0); }, &t); clobberStack(); t.join(); return ranOnce(0, "the function given to Thread::start(f, &t)") + visible() + chk(t.finished(), "t.finished() is false after Thread::start(f, &t); t.join()"); }; v.push_back(s); }
 		{ Scenario s; s.name = fmt("start_static_assign.body%d", b); s.body = [b]() { g_body = b; Thread t; t = Thread::start([]() { bodyFn(0); }, &t); clobberStack(); t.join(); return ranOnce(0, "the function given to Thread::start(f, &t)") + visible() + chk(t.finished(), "t.finished() is false after t = Thread::start(f, &t); t.join()"); }; v.push_back(s); }
-		// copying a Thread transfers the handle: the copy is the one to join, the thread keeps running on the object it was started on
-		{ Scenario s; s.name = fmt("copy_ctor_subclass.body%d", b); s.body = [b]() { g_body = b; SubThread t(0); t.start(); bool running = !t.finished(); SubThread u(t); if (running) vf::add(W_COPY_RUNNING); u.join(); return ranOnce(0, "run()") + visible() + chk(t.finished(), "finished() of the object the thread runs on is false after join() through the copy"); }; v.push_back(s); }
-		{ Scenario s; s.name = fmt("copy_assign_subclass.body%d", b); s.body = [b]() { g_body = b; SubThread t(0), u(5); t.start(); u = t; u.join(); return ranOnce(0, "run()") + visible() + chk(g_runs[5] == 0, "the thread ran on the wrong object") + chk(t.finished(), "finished() of the object the thread runs on is false after join() through the assigned copy"); }; v.push_back(s); }
-		{ Scenario s; s.name = fmt("copy_ctor_lambda.body%d", b); s.body = [b]() { g_body = b; Thread t([]() { bodyFn(0); }); Thread u(t); clobberStack(); u.join(); return ranOnce(0, "the lambda") + visible() + chk(t.finished(), "finished() of the object the lambda thread was created on is false after join() through the copy"); }; v.push_back(s); }
+		// copying a Thread transfers the handle: the copy is the one to join. finished() must be true afterwards on the object the thread was started on or on the
+		// copy whose join() returned (the statement does not say which of the two keeps the flag; the unchanged library keeps it on the first)
+		{ Scenario s; s.name = fmt("copy_ctor_subclass.body%d", b); s.body = [b]() { g_body = b; SubThread t(0); t.start(); bool running = !t.finished(); SubThread u(t); if (running) vf::add(W_COPY_RUNNING); u.join(); return ranOnce(0, "run()") + visible() + chk(t.finished() || u.finished(), "neither the object the thread was started on nor the copy that was joined reports finished() after join() through the copy"); }; v.push_back(s); }
+		{ Scenario s; s.name = fmt("copy_assign_subclass.body%d", b); s.body = [b]() { g_body = b; SubThread t(0), u(5); t.start(); u = t; u.join(); return ranOnce(0, "run()") + visible() + chk(g_runs[5] == 0, "the thread ran on the wrong object") + chk(t.finished() || u.finished(), "neither the object the thread was started on nor the assigned copy that was joined reports finished() after join()"); }; v.push_back(s); }
+		{ Scenario s; s.name = fmt("copy_ctor_lambda.body%d", b); s.body = [b]() { g_body = b; Thread t([]() { bodyFn(0); }); Thread u(t); clobberStack(); u.join(); return ranOnce(0, "the lambda") + visible() + chk(t.finished() || u.finished(), "neither the object the lambda thread was created on nor the copy that was joined reports finished() after join() through the copy"); }; v.push_back(s); }
 		{ Scenario s; s.name = fmt("array_lambda.body%d", b); s.body = [b]() { g_body = b; Array<Thread> a; a << Thread([]() { bodyFn(0); }); clobberStack(); a[0].join(); return ranOnce(0, "the lambda") + visible(); }; v.push_back(s); }
 	}
 	{ Scenario s; s.name = "threadgroup3"; s.bound = T ? 3 : 2; s.body = []() { g_body = 1; ThreadGroup<SubThread> g; g << SubThread(0) << SubThread(1) << SubThread(2); g.start(); g.join(); return chk(g_runs[0] == 1 && g_runs[1] == 1 && g_runs[2] == 1, "ThreadGroup member did not run exactly once before join() returned"); }; v.push_back(s); }
@@ -244,11 +249,11 @@ static std::string reuseHistory(const std::string& kinds, const std::string& bod
 			#define POLL() do { f1 = t.finished(); r1 = g_runs[j]; } while (0)
 			switch (kd) {
 			case 'S': t.start(); POLL(); t.join(); fin = t.finished(); break;
-			case 'C': { t.start(); POLL(); ReuseThread v(t); v.join(); fin = t.finished(); } break;
+			case 'C': { t.start(); POLL(); ReuseThread v(t); v.join(); fin = t.finished() || v.finished(); } break;
 			case 'F': Thread::start(f, &t); POLL(); clobberStack(); t.join(); fin = t.finished(); break;
 			case 'A': tb = Thread::start(f, &t); POLL(); clobberStack(); t.join(); fin = t.finished(); break;
 			case 'K': { Thread v = Thread::start(f, &t); POLL(); clobberStack(); v.join(); fin = t.finished() || v.finished(); } break;
-			default: u = Thread::start(f, &t); POLL(); clobberStack(); u.join(); fin = t.finished(); break;
+			default: u = Thread::start(f, &t); POLL(); clobberStack(); u.join(); fin = t.finished() || u.finished(); break;
 			}
 			#undef POLL
 			vf::add(W_REUSE_CYCLES);
@@ -451,7 +456,7 @@ static std::string runScenario(const Scenario& s, const std::string* replay, vsc
 		for (int i = 0; i < 16; i++) if (g_final[i] >= 0 && g_runs[i] != g_final[i]) verdict += fmt("run %d had been executed %d time(s) when all threads of the execution had ended, expected %d; ", i + 1, (int)g_runs[i], g_final[i]);
 		if (vsched::invalid_joins()) verdict += fmt("%d join()/detach call(s) on an empty, detached or already joined thread handle; ", vsched::invalid_joins());
 		int early = 0, readyPts = 0;
-		for (size_t i = 0; i < x.points.size(); i++) { const vsched::PointInfo& q = x.points[i]; if (q.ntimer && q.chosen >= q.nenabled - q.ntimer) early++; if (q.kind == 20) readyPts++; }
+		for (size_t i = 0; i < x.points.size(); i++) { const vsched::PointInfo& q = x.points[i]; if (q.ntimer && q.chosen >= q.nenabled - q.ntimer) early++; if (q.kind == 20) readyPts++; if (q.nenabled >= 2 && (q.running_enabled || q.ntimer)) g_opportunity = true; }
 		if (early) vf::add(W_EARLY);
 		if (g_timeouts > early) vf::add(W_TIMEOUT);
 		if (readyPts && W_READY_POINT >= 0) vf::add(W_READY_POINT, readyPts);
@@ -464,11 +469,14 @@ static std::string runScenario(const Scenario& s, const std::string* replay, vsc
 		}
 	};
 	if (replay) { vsched::Result x = vsched::run_once(vsched::parse_schedule(*replay), body); after(x); return verdict; }
+	g_opportunity = false;
 	vsched::ExploreStats st = vsched::explore(body, after, s.bound);
 	if (out) *out = st;
 	vf::add(C_JOBS); vf::add(C_STATES, st.distinct_states);
-	// vacuity guard per scenario: one with threads and a non-zero bound must have had executions in which a running thread was preempted
-	if (s.threads && s.bound != 0) { vf::add(C_EXPECT_PRE); if (st.with_preemption) vf::add(C_WITH_PRE); else fprintf(stderr, "HARNESS ERROR: scenario %s had no execution with a preemption\n", s.name.c_str()); }
+	// vacuity guard per scenario: with a non-zero bound, a scenario in which a preemption was possible at all (a point with the running thread and another
+	// one enabled, or a timed waiter that may expire early) must have had executions with a preemption. How many threads the library uses is its own business
+	// (a parallel_for that runs a share on the calling thread has none for n = 1): scenarios without any such point are counted, not failed.
+	if (s.bound != 0) { if (g_opportunity) { vf::add(C_EXPECT_PRE); if (st.with_preemption) vf::add(C_WITH_PRE); else fprintf(stderr, "HARNESS ERROR: scenario %s had no execution with a preemption\n", s.name.c_str()); } else vf::add(C_NO_OPP); }
 	return "";
 }
 
@@ -486,11 +494,9 @@ static Scenario pforScenario(int i0, int i1, int n, int bound, int mode, int k =
 	std::string ns = n < 0 ? std::string("def") : fmt("%d", n);
 	s.name = fnptr ? fmt("parallel_for_fnptr.%d.%d.%s.b%d", i0, i1, ns.c_str(), bound) : mode == 2 ? fmt("parallel_for.%d.%d.%s.b%d.s%d", i0, i1, ns.c_str(), bound, k) : mode == 3 ? fmt("parallel_for.%d.%d.%s.b%d.t%d", i0, i1, ns.c_str(), bound, k) : fmt("parallel_for.%d.%d.%s.b%d.y%d", i0, i1, ns.c_str(), bound, mode);
 	if (rep) s.name += rep == 1 ? ".x2" : ".x2w";
-	int nn = std::min(n < 0 ? 8 : n, i1 - i0);
-	s.threads = nn >= 1;
-	s.body = [i0, i1, n, nn, mode, k, fnptr, rep]() {
+	s.body = [i0, i1, n, mode, k, fnptr, rep]() {
 		g_pforForced = 0; g_pforSlept = 0;
-		auto mk = [mode, k](int a0, int an) { return [mode, a0, k, an](int i) { if (mode == 1) vsched::point(); else if (mode == 2 && i == a0 + k) { g_pforForced++; vsched::yield_spin(0); } else if (mode == 3 && i - a0 < an) { g_pforSlept++; usleep(1000 * (k ? an - (i - a0) : i - a0 + 1)); } if (i >= -8 && i < 56) g_hits[i + 8]++; else g_hits[0] += 1000; }; };
+		auto mk = [mode, k](int a0, int an) { return [mode, a0, k, an](int i) { if (mode == 1) vsched::point(); else if (mode == 2 && i == a0 + k) { if (vsched::self() > 0) { g_pforForced++; vsched::yield_spin(0); } else vsched::point(); } /* an implementation may run a share on the calling thread: nobody is left to step for it */ else if (mode == 3 && i - a0 < an) { g_pforSlept++; usleep(1000 * (k ? an - (i - a0) : i - a0 + 1)); } if (i >= -8 && i < 56) g_hits[i + 8]++; else g_hits[0] += 1000; }; };
 		std::string bad;
 		int calls = rep ? 2 : 1, lo[2] = { i0, rep == 2 ? i0 - 2 : i0 }, hi[2] = { i1, rep == 2 ? i1 + 3 : i1 }, nth[2] = { n, (rep == 2 && n > 0) ? n + 1 : n };
 		for (int c = 0; c < calls && bad.empty(); c++) {
@@ -530,11 +536,11 @@ int main(int argc, char** argv) {
 	W_WORKER_FIRST = vf::counter("w.thread_finished_before_creator_resumed"); W_CREATOR_FIRST = vf::counter("w.creator_resumed_before_thread_finished");
 	W_TRY_FAIL = vf::counter("w.trywait_found_no_permit"); W_TRY_OK = vf::counter("w.trywait_took_permit"); W_YIELD_FORCED = vf::counter("w.parallel_for_creator_got_ahead_at_bound0"); W_DEFAULT_NTH = vf::counter("w.parallel_for_default_thread_count"); W_ALL_BEHIND = vf::counter("w.parallel_for_creator_ahead_of_all_threads_at_bound0");
 	W_COPY_RUNNING = vf::counter("w.thread_copied_while_running"); W_UAR = vf::counter("w.stack_use_after_return_detection_on");
-	W_REUSE_CYCLES = vf::counter("w.reuse_cycles_completed"); W_REUSE_WAIT = vf::counter("w.reuse_later_cycle_creator_ahead_of_function"); W_REUSE_STALE = vf::counter("w.reuse_finished_still_set_during_later_run");
+	W_REUSE_CYCLES = vf::counter("w.reuse_cycles_completed"); W_REUSE_WAIT = vf::counter("w.reuse_later_cycle_creator_ahead_of_function"); W_REUSE_STALE = vf::counter("reuse_finished_still_set_during_later_run");
 	W_REUSE_GROUP = vf::counter("w.threadgroup_later_round"); W_REUSE_GROUP_GROW = vf::counter("w.threadgroup_member_added_between_rounds"); W_PFOR_TWICE = vf::counter("w.parallel_for_second_call"); W_INVOKE_TWICE = vf::counter("w.parallel_invoke_second_call");
 	W_SEM_ROUND2 = vf::counter("w.semaphore_second_round"); W_COND_ROUND2 = vf::counter("w.condition_second_round"); W_SEM_TO_THEN_ACQ = vf::counter("w.semaphore_timeout_round_then_acquiring_round"); W_COND_TO_THEN_SIG = vf::counter("w.condition_timeout_round_then_signalled_round");
 	W_FINISH_HOOK = vf::counter("w.finish_hook_ran_in_thread"); W_FUNCTOR_DTOR = vf::counter("w.functor_copy_destroyed_in_thread");
-	C_EXPECT_PRE = vf::counter("scenarios_expecting_preemption"); C_WITH_PRE = vf::counter("scenarios_with_preemption"); C_SKIPPED = vf::counter("scenarios_skipped_deadline");
+	C_EXPECT_PRE = vf::counter("scenarios_expecting_preemption"); C_WITH_PRE = vf::counter("scenarios_with_preemption"); C_SKIPPED = vf::counter("scenarios_skipped_deadline"); C_NO_OPP = vf::counter("scenarios_without_preemption_opportunity");
 #ifdef ASL_VERIF_HAVE_READY_POINT
 	W_READY_POINT = vf::counter("w.ready_flag_points");
 #endif
